@@ -18,6 +18,7 @@ import (
 	"go/token"
 	"os"
 	"path/filepath"
+	"regexp"
 	"sort"
 	"strconv"
 	"strings"
@@ -129,35 +130,51 @@ func stackOrder(fn string) []string {
 	if fd == nil {
 		return []string{"Unknown"}
 	}
-	var order []string
-	record := func(e ast.Expr) {
-		call, ok := e.(*ast.CallExpr)
-		if !ok {
-			return
+	// a constructor is a method of the factory (pf.x) or a New... function; its application
+	// C(args)(p) is recorded AFTER whatever p evaluates to (so nested compositions come out
+	// innermost first), and the arguments of the constructor itself are not searched
+	isCtor := func(e ast.Expr) bool {
+		name := src(e)
+		if strings.HasPrefix(name, "New") {
+			return true
 		}
-		inner := call
-		if c2, ok := call.Fun.(*ast.CallExpr); ok {
-			inner = c2
+		if sel, ok := e.(*ast.SelectorExpr); ok {
+			if id, ok := sel.X.(*ast.Ident); ok && fd.Recv != nil && len(fd.Recv.List) == 1 &&
+				len(fd.Recv.List[0].Names) == 1 && id.Name == fd.Recv.List[0].Names[0].Name {
+				return true
+			}
 		}
-		name := src(inner.Fun)
-		if name == "make" || name == "append" || name == "len" {
-			return
-		}
-		order = append(order, name)
+		return false
 	}
-	ast.Inspect(fd.Body, func(n ast.Node) bool {
-		switch x := n.(type) {
-		case *ast.AssignStmt:
-			if len(x.Rhs) >= 1 {
-				record(x.Rhs[0])
-			}
-		case *ast.ReturnStmt:
-			for _, r := range x.Results {
-				record(r)
-			}
+	var order []string
+	var visit func(n ast.Node)
+	visit = func(n ast.Node) {
+		if n == nil {
+			return
 		}
-		return true
-	})
+		ast.Inspect(n, func(m ast.Node) bool {
+			call, ok := m.(*ast.CallExpr)
+			if !ok {
+				return true
+			}
+			if inner, ok := call.Fun.(*ast.CallExpr); ok && isCtor(inner.Fun) {
+				// C(args)(p): p first, then C
+				for _, a := range call.Args {
+					visit(a)
+				}
+				order = append(order, src(inner.Fun))
+				return false
+			}
+			if isCtor(call.Fun) {
+				// a bare constructor: pf.backendFactory(b), pf.newStack(b), or a middleware value
+				// handed to a local helper that applies it (wrap(NewX(...)))
+				order = append(order, src(call.Fun))
+				return false
+			}
+			return true
+		})
+	}
+	visit(fd.Body)
 	if len(order) == 0 {
 		return []string{"Unknown"}
 	}
@@ -582,7 +599,88 @@ type lockCfg struct {
 	file     string
 	mutexes  map[string]bool
 	data     map[string]bool
-	callKind string // how a method call on the shared object counts: LSafeCall (object locks itself), LRead, LWrite
+	callKind string         // how a method call on the shared object counts: LSafeCall (object locks itself), LRead, LWrite
+	dataType *regexp.Regexp // declared type of the shared object: variables and fields of that type are shared objects too
+}
+
+var mutexTypeRe = regexp.MustCompile(`^[*&]?sync\.(RW)?Mutex$`)
+
+// declared type (as text) of a value expression: T{...} -> T, &T{...} -> *T, new(T) -> *T
+func valueType(e ast.Expr) string {
+	switch x := e.(type) {
+	case *ast.CompositeLit:
+		return src(x.Type)
+	case *ast.UnaryExpr:
+		if x.Op == token.AND {
+			if t := valueType(x.X); t != "" {
+				return "*" + t
+			}
+		}
+	case *ast.CallExpr:
+		if id, ok := x.Fun.(*ast.Ident); ok && id.Name == "new" && len(x.Args) == 1 {
+			return "*" + src(x.Args[0])
+		}
+	}
+	return ""
+}
+
+// names of the package-level variables and struct fields of a package whose declared type matches
+// re (an embedded field goes by its type name): locks and shared objects are found by what they
+// are, not by what they are called
+func namesOfType(dir string, re *regexp.Regexp) map[string]bool {
+	res := map[string]bool{}
+	if re == nil {
+		return res
+	}
+	match := func(t string) bool { return t != "" && re.MatchString(strings.ReplaceAll(t, " ", "")) }
+	for _, f := range pkgFiles(dir) {
+		ast.Inspect(f, func(n ast.Node) bool {
+			switch x := n.(type) {
+			case *ast.FuncDecl:
+				return false
+			case *ast.ValueSpec:
+				for i, name := range x.Names {
+					t := ""
+					if x.Type != nil {
+						t = src(x.Type)
+					} else if i < len(x.Values) {
+						t = valueType(x.Values[i])
+					}
+					if match(t) {
+						res[name.Name] = true
+					}
+				}
+			case *ast.StructType:
+				for _, fl := range x.Fields.List {
+					t := src(fl.Type)
+					if !match(t) {
+						continue
+					}
+					if len(fl.Names) == 0 {
+						res[lastName(t)] = true
+					}
+					for _, name := range fl.Names {
+						res[name.Name] = true
+					}
+				}
+			}
+			return true
+		})
+	}
+	return res
+}
+
+// the methods (any receiver) of a package called name
+func methodsNamed(dir, name string) []*ast.FuncDecl {
+	var res []*ast.FuncDecl
+	for _, f := range pkgFiles(dir) {
+		for _, d := range f.Decls {
+			if fd, ok := d.(*ast.FuncDecl); ok && fd.Recv != nil && fd.Body != nil && fd.Name.Name == name {
+				res = append(res, fd)
+			}
+		}
+	}
+	return res
 }
 
 func lastName(s string) string {
@@ -669,6 +767,14 @@ func (w *lockWalker) events(n ast.Node) [][]string {
 				if rName != "" && src(se.X) == rName && w.depth < 2 {
 					if callee := findFunc(w.cfg.dir, rType, se.Sel.Name); callee != nil && callee != w.fd {
 						inline(callee, x.Args)
+						return false
+					}
+				}
+				if !w.cfg.data[base] && src(se.X) != rName && w.depth < 2 {
+					// a method of another value of this package (a table object that wraps the lock and
+					// the map): followed when the name identifies it
+					if ms := methodsNamed(w.cfg.dir, se.Sel.Name); len(ms) == 1 && ms[0] != w.fd {
+						inline(ms[0], x.Args)
 						return false
 					}
 				}
@@ -859,6 +965,20 @@ func (w *lockWalker) paths() [][]string {
 
 func lockFacts(pkg string, cfg lockCfg) [][2]string {
 	var res [][2]string
+	mutexes, data := map[string]bool{}, map[string]bool{}
+	for k := range cfg.mutexes {
+		mutexes[k] = true
+	}
+	for k := range namesOfType(cfg.dir, mutexTypeRe) {
+		mutexes[k] = true
+	}
+	for k := range cfg.data {
+		data[k] = true
+	}
+	for k := range namesOfType(cfg.dir, cfg.dataType) {
+		data[k] = true
+	}
+	cfg.mutexes, cfg.data = mutexes, data
 	for _, f := range pkgFiles(cfg.dir) {
 		if cfg.file != "" && filepath.Base(fset.Position(f.Pos()).Filename) != cfg.file {
 			continue
@@ -957,9 +1077,9 @@ func main() {
 		}
 		p("].")
 	}
-	emitLocks("register", lockFacts("register", lockCfg{"register", "register.go", mn, map[string]bool{"data": true}, "LSafeCall"}))
-	emitLocks("render", append(lockFacts("gin", lockCfg{"router/gin", "render.go", mn, map[string]bool{"renderRegister": true}, "LRead"}),
-		lockFacts("mux", lockCfg{"router/mux", "render.go", mn, map[string]bool{"renderRegister": true}, "LRead"})...))
-	emitLocks("backoff", lockFacts("backoff", lockCfg{"backoff", "backoff.go", mn, map[string]bool{"random": true}, "LWrite"}))
-	emitLocks("dnssrv", lockFacts("dnssrv", lockCfg{"sd/dnssrv", "subscriber.go", mn, map[string]bool{"cache": true}, "LRead"}))
+	emitLocks("register", lockFacts("register", lockCfg{"register", "register.go", mn, map[string]bool{"data": true}, "LSafeCall", regexp.MustCompile(`^(map\[string\]interface\{\}|\*Untyped)$`)}))
+	emitLocks("render", append(lockFacts("gin", lockCfg{"router/gin", "render.go", mn, map[string]bool{"renderRegister": true}, "LRead", regexp.MustCompile(`^map\[string\]Render$`)}),
+		lockFacts("mux", lockCfg{"router/mux", "render.go", mn, map[string]bool{"renderRegister": true}, "LRead", regexp.MustCompile(`^map\[string\]Render$`)})...))
+	emitLocks("backoff", lockFacts("backoff", lockCfg{"backoff", "backoff.go", mn, map[string]bool{"random": true}, "LWrite", regexp.MustCompile(`^\*rand\.Rand$`)}))
+	emitLocks("dnssrv", lockFacts("dnssrv", lockCfg{"sd/dnssrv", "subscriber.go", mn, map[string]bool{"cache": true}, "LRead", regexp.MustCompile(`^\*sd\.FixedSubscriber$`)}))
 }
